@@ -39,7 +39,9 @@ def sequential_items(rng, tier):
         name = op.replace(".", "_")
         kind = op.split(".")[2]
         vs = vals32 if t == "i32" else vals64
-        for off in (0, 16):
+        # static offsets: 0, a multiple of every width, and one that is NOT a multiple of the access width - the address operand
+        # then makes up for it (the EFFECTIVE address is what has to be naturally aligned)
+        for off in (0, 16) + ((w + 1,) if w > 1 else ()):
             nm = "%s_%d" % (name, off)
             if kind.startswith("load"):
                 funcs.append({"type": ty(["i32"], [t]), "locals": [], "body": [["local.get", 0], [op, natural_align(op), off], ["end"]]})
@@ -57,6 +59,8 @@ def sequential_items(rng, tier):
             exports.append({"name": nm, "kind": "func", "idx": len(funcs) - 1})
             for a in (64, 64 + w, 120):
                 a -= a % w
+                if off % w:
+                    a -= off % w                      # effective address a - (off mod w) + off: aligned
                 for av in args(a):
                     calls.append({"op": "call", "inst": 1, "export": nm, "args": av})
     rng.shuffle(calls)
@@ -236,7 +240,7 @@ def main():
         if rc != 0:
             raise common.MachineryError("cannot translate the thread module: " + se[-500:])
         exes = {}
-        for name, defs in (("le", []), ("be", ["-DWASM_ENDIAN=1"]), ("le-clang", [])):
+        for name, defs in (("le", []), ("be", ["-DWASM_ENDIAN=1"]), ("le-clang", []), ("be-clang", ["-DWASM_ENDIAN=1"])):
             exe = os.path.join(wd, "thr-" + name)
             rc, so, se = run(["clang" if name.endswith("clang") else "gcc", "-O2", "-w", "-I", wd, "-I", os.path.join(REPO, "w2c2"), "-DWASM_THREADS_PTHREADS", *defs,
                               os.path.join(BINDC, "atomics_threads.c"), os.path.join(wd, "at.c"), "-o", exe, "-lpthread", "-lm"], timeout=300)
@@ -299,7 +303,20 @@ def main():
                 stress[name + "-mp"] = mp
                 if mp["stale"]:
                     v.deviation("litmus:%s:message-passing" % name, mp)
-        for name in ("le", "be"):
+        # 4y. no torn values: an atomic load returns one of the values that were stored, in every configuration and compiler
+        for name in ("le", "le-clang", "be", "be-clang"):
+            rc, so, se = run([exes[name], "torn", "2", "300000" if tier == "quick" else "3000000"], timeout=600)
+            for l in so.splitlines():
+                try:
+                    hm = json.loads(l)
+                except ValueError:
+                    continue
+                stress.setdefault(name + "-torn", []).append(hm)
+                if hm["lost"]:
+                    v.deviation("litmus:%s:%s" % (name, hm["op"]), hm)
+            if rc != 0:
+                v.deviation("litmus:%s:torn:%s" % (name, "hang" if rc == -999 else "crash"), {"rc": rc, "stderr": se[-400:]})
+        for name in ("le", "be", "be-clang"):
             rc, so, se = run([exes[name], "hammer", "4", "20000" if tier == "quick" else "200000"], timeout=900)
             for l in so.splitlines():
                 try:
